@@ -165,6 +165,76 @@ pub mod spec_name {
         }
     }
 
+    /// The first-chunk length reported by the reference decoder lies inside the buffer.
+    pub proof fn lemma_dec_at_bounds(b: Seq<u8>, cs: int, i: int, acc: Seq<u8>, fc: int, start: int)
+        requires
+            dec_at(b, cs, i, acc, fc, start) is Some,
+            fc < 0 ==> (cs == start && start <= i),
+            fc >= 0 ==> (1 <= fc && start + fc <= b.len()),
+        ensures
+            1 <= dec_at(b, cs, i, acc, fc, start)->Some_0.1,
+            start + dec_at(b, cs, i, acc, fc, start)->Some_0.1 <= b.len(),
+            fc >= 0 ==> dec_at(b, cs, i, acc, fc, start)->Some_0.1 == fc,
+        decreases cs, b.len() - i
+    {
+        let o = b[i];
+        if is_ptr(o) {
+            let p = ptr_val(b[i], b[i + 1]);
+            lemma_dec_at_bounds(b, p, p, acc, if fc < 0 { i + 2 - start } else { fc }, start);
+        } else if o != 0 {
+            let end = i + o as int + 1;
+            lemma_dec_at_bounds(b, cs, end, acc + b.subrange(i, end), fc, start);
+        }
+    }
+
+    pub proof fn lemma_dec_bounds(b: Seq<u8>, start: int)
+        requires dec(b, start) is Some,
+        ensures 1 <= dec(b, start)->Some_0.1, start + dec(b, start)->Some_0.1 <= b.len(), 0 <= start < b.len(),
+    {
+        lemma_dec_at_bounds(b, start, start, Seq::empty(), -1, start);
+    }
+
+    /// A first chunk found by `skip_from` ends after its start and inside the buffer.
+    pub proof fn lemma_skip_bounds(b: Seq<u8>, i: int)
+        requires skip_from(b, i) is Some,
+        ensures i < skip_from(b, i)->Some_0 <= b.len(),
+        decreases b.len() - i
+    {
+        if 0 <= i < b.len() && !is_ptr(b[i]) && b[i] <= 63 && b[i] != 0 && i + b[i] as int + 1 <= b.len() {
+            lemma_skip_bounds(b, i + b[i] as int + 1);
+        }
+    }
+
+    /// Where both succeed, skipping (no pointer following) and full decoding agree
+    /// on the length of the first chunk.
+    pub proof fn lemma_skip_dec_agree_at(b: Seq<u8>, c: int, i: int, acc: Seq<u8>)
+        requires
+            0 <= c <= i,
+            dec_at(b, c, i, acc, -1, c) is Some,
+            skip_from(b.subrange(c, b.len() as int), i - c) is Some,
+        ensures
+            dec_at(b, c, i, acc, -1, c)->Some_0.1 == skip_from(b.subrange(c, b.len() as int), i - c)->Some_0,
+        decreases b.len() - i
+    {
+        let sub = b.subrange(c, b.len() as int);
+        assert(sub[i - c] == b[i]);
+        let o = b[i];
+        if is_ptr(o) {
+            let p = ptr_val(b[i], b[i + 1]);
+            lemma_dec_at_bounds(b, p, p, acc, i + 2 - c, c);
+        } else if o != 0 {
+            let end = i + o as int + 1;
+            lemma_skip_dec_agree_at(b, c, end, acc + b.subrange(i, end));
+        }
+    }
+
+    pub proof fn lemma_skip_dec_agree(b: Seq<u8>, c: int)
+        requires 0 <= c, dec(b, c) is Some, skip_from(b.subrange(c, b.len() as int), 0) is Some,
+        ensures dec(b, c)->Some_0.1 == skip_from(b.subrange(c, b.len() as int), 0)->Some_0,
+    {
+        lemma_skip_dec_agree_at(b, c, c, Seq::empty());
+    }
+
     /// Number of labels is bounded by half the length (each label >= 2 octets).
     pub proof fn lemma_starts_len(p: Seq<u8>, i: int)
         requires 0 <= i <= p.len(), labels_ok(p, i),
